@@ -25,6 +25,11 @@ impl Converter {
     }
 
     fn convert_to_field(&self, key_expression: &Expression) -> Option<String> {
+        // the key expression disappears: it must not do anything else than produce the string
+        if self.evaluator.has_side_effects(key_expression) {
+            return None;
+        }
+
         if let LuaValue::String(string) = self.evaluator.evaluate(key_expression) {
             String::from_utf8(string)
                 .ok()
